@@ -78,6 +78,13 @@ Proof.
     + now apply IH with x.
 Qed.
 
+Lemma in_nseq x n : forall s, In x (nseq s n) -> exists k, k < N.of_nat n /\ x = s + k.
+Proof.
+  induction n as [|n IH]; intros s H; [destruct H|].
+  cbn [nseq] in H. destruct H as [<-|H]; [exists 0; lia|].
+  apply IH in H as (k & Hk & ->). exists (1 + k). lia.
+Qed.
+
 Lemma firstn_skipn_map (l : bytes) : forall p n,
   (p + n <= length l)%nat ->
   firstn n (skipn p l) = List.map (nth_N l) (nseq (N.of_nat p) n).
@@ -237,7 +244,7 @@ Section Stream.
     tiles m /\ length offs = length done /\
     (forall x, x < W -> pt_ok offs (rearrange done) (denote m x) x) /\
     (forall x, OFF_LIMIT <= x -> denote m x = NONE) /\
-    (done <> [] -> exists x, x < W /\ denote m x <> NONE).
+    (m = [] \/ exists x, x < W /\ denote m x <> NONE).
 
   Lemma Inv_nil : Inv [] [] [].
   Proof.
@@ -246,7 +253,7 @@ Section Stream.
     - reflexivity.
     - intros x _. left. split; [apply denote_nil|reflexivity].
     - intros x _. apply denote_nil.
-    - intros H. now destruct H.
+    - now left.
   Qed.
 
   Lemma offs_nth_snoc offs d : offs_nth (offs ++ [d]) (Z.of_nat (length offs)) = Some d.
@@ -315,7 +322,7 @@ Section Stream.
     - intros x Hx. rewrite Hpt. unfold set_spec. rewrite Hcov. unfold covers.
       destruct (N.leb_spec (r_pos r) x), (N.ltb_spec x (r_pos r + r_size r)); cbn [andb];
         try (apply Hhi; exact Hx). unfold OFF_LIMIT in Hx. lia.
-    - intros _. exists (r_pos r). split; [lia|].
+    - right. exists (r_pos r). split; [lia|].
       rewrite Hpt. unfold set_spec. rewrite Hcov. unfold covers.
       destruct (N.leb_spec (r_pos r) (r_pos r)), (N.ltb_spec (r_pos r) (r_pos r + r_size r));
         cbn [andb rg meth]; try lia. unfold NONE. lia.
@@ -410,6 +417,9 @@ Section Stream.
                      = {| endoff := r_size r - 1; meth := Z.of_nat (length done) |}).
       { f_equal; lia. }
       rewrite N2Z.id.
+      assert (Hio : in_off (Z.of_nat (length pre) + HDR_SIZE + Z.of_N (r_size r)) = true).
+      { pose proof Hflen as Hfl. unfold flen, OFF_LIMIT in Hfl, Hlen.
+        unfold in_off, OFF_MIN, OFF_MAX, HDR_SIZE. apply andb_true_intro. split; apply Z.leb_le; lia. }
       (* from the store into the offset array onwards, for any state of the oracle *)
       assert (Hfin : forall orc1 (Hw : all_true oracle -> all_true orc1),
         good_result oracle
@@ -425,10 +435,13 @@ Section Stream.
              match map_set m (r_pos r)
                      {| endoff := Z.to_N (Z.of_N (r_size r) - 1);
                         meth := Z.of_N (N.of_nat (length done)) |} ok2 with
-             | Ok m'0 => init_loop rd fuel oracle0 m'0
+             | Ok m'0 =>
+                 if in_off (Z.of_nat (length pre) + HDR_SIZE + Z.of_N (r_size r))
+                 then init_loop rd fuel oracle0 m'0
                            (offs ++ [(Z.of_nat (length pre) + HDR_SIZE - Z.of_N (r_pos r))%Z]) cap'
                            (N.of_nat (length done) + 1)
                            (Z.of_nat (length pre) + HDR_SIZE + Z.of_N (r_size r))%Z
+                 else InitUB UB_OVERFLOW
              | NoMem => InitDone ST_SYSTEM
                           {| fm_map := m;
                              fm_offs := offs ++ [(Z.of_nat (length pre) + HDR_SIZE - Z.of_N (r_pos r))%Z] |}
@@ -438,10 +451,13 @@ Section Stream.
         assert (Hgo : forall ok2 orc2, (all_true oracle -> all_true orc2 /\ ok2 = true) ->
           good_result oracle
             match map_set m (r_pos r) {| endoff := r_size r - 1; meth := Z.of_nat (length done) |} ok2 with
-            | Ok m'0 => init_loop rd fuel orc2 m'0
+            | Ok m'0 =>
+                if in_off (Z.of_nat (length pre) + HDR_SIZE + Z.of_N (r_size r))
+                then init_loop rd fuel orc2 m'0
                           (offs ++ [(Z.of_nat (length pre) + HDR_SIZE - Z.of_N (r_pos r))%Z]) cap'
                           (N.of_nat (length done) + 1)
                           (Z.of_nat (length pre) + HDR_SIZE + Z.of_N (r_size r))%Z
+                else InitUB UB_OVERFLOW
             | NoMem => InitDone ST_SYSTEM
                          {| fm_map := m;
                             fm_offs := offs ++ [(Z.of_nat (length pre) + HDR_SIZE - Z.of_N (r_pos r))%Z] |}
@@ -449,7 +465,7 @@ Section Stream.
             end fm).
         { intros ok2 orc2 Hw2.
           destruct (map_set_any_ok m (r_pos r) _ m' ok2 Hset) as [->|[-> ->]].
-          - eapply good_weaken; [apply Hgood|]. intros Ho. apply (proj1 (Hw2 Ho)).
+          - rewrite Hio. eapply good_weaken; [apply Hgood|]. intros Ho. apply (proj1 (Hw2 Ho)).
           - apply good_system. intros Ho. destruct (Hw2 Ho) as [_ Hf]. discriminate. }
         destruct (match set_delta m (r_pos r) {| endoff := r_size r - 1; meth := Z.of_nat (length done) |} with
                   | Some d => (0 <? d)%Z | None => false end).
@@ -466,4 +482,394 @@ Section Stream.
         * apply good_system. exact Ho'.
       + cbn [negb]. rewrite <- Hc. apply Hfin. trivial.
   Qed.
+
+  (** * Reading through the map *)
+
+  Lemma map_nseq_ext (g f : N -> byte) n : forall a b,
+    (forall k, k < N.of_nat n -> g (a + k) = f (b + k)) ->
+    List.map g (nseq a n) = List.map f (nseq b n).
+  Proof.
+    induction n as [|n IH]; intros a b H; [reflexivity|].
+    cbn [nseq List.map]. f_equal.
+    - specialize (H 0). rewrite !N.add_0_r in H. apply H. lia.
+    - apply IH. intros k Hk. replace (a + 1 + k) with (a + (1 + k)) by lia.
+      replace (b + 1 + k) with (b + (1 + k)) by lia. apply H. lia.
+  Qed.
+
+  Lemma slice_app f p a b : slice f p (a + b) = slice f p a ++ slice f (p + a) b.
+  Proof.
+    unfold slice. rewrite Nnat.N2Nat.inj_add, nseq_app, map_app, Nnat.N2Nat.id. reflexivity.
+  Qed.
+
+  Lemma pread_pieces_len0 offs rs off pos : pread_pieces offs rs off pos 0 = [].
+  Proof. destruct rs; reflexivity. Qed.
+
+  Lemma s64_u64 z : (0 <= z < 9223372036854775808)%Z -> s64 (u64 z) = z.
+  Proof.
+    intros H. unfold u64. rewrite Z.mod_small by lia. rewrite s64_small by lia. lia.
+  Qed.
+
+  Lemma u64_of_N x : x < W -> u64 (Z.of_N x) = x.
+  Proof. intros H. rewrite W_val in H. unfold u64. rewrite Z.mod_small by lia. lia. Qed.
+
+  Lemma pread_pieces_ok offs f : forall rs base off pos len,
+    (forall x, base + off <= x -> x < base + off + len ->
+               pt_ok offs f (denote_from base rs x) x) ->
+    Forall (fun r => endoff r < MAXA) rs ->
+    base + total rs <= W ->
+    match rs with [] => True | r :: _ => off <= endoff r end ->
+    pos = Z.of_N (base + off) ->
+    base + off + len <= OFF_LIMIT ->
+    exec_pieces rd (pread_pieces offs rs off pos len) = POk (slice f (base + off) len).
+  Proof.
+    pose proof W_val as HW. pose proof MAXA_val as HM. unfold OFF_LIMIT.
+    pose proof Hflen as Hfl. unfold flen, OFF_LIMIT in Hfl.
+    induction rs as [|r rs IH]; intros base off pos len Hpt Hfa Htot Hoff Hpos Hlim.
+    - cbn [pread_pieces]. destruct (N.eqb_spec len 0) as [->|Hl].
+      + reflexivity.
+      + cbn [exec_pieces]. f_equal. rewrite app_nil_r. unfold slice, zeros.
+        rewrite zeros_map; [now rewrite nseq_length|].
+        intros x Hx.
+        assert (Hr : base + off <= x /\ x < base + off + len).
+        { apply in_nseq in Hx as (k & Hk & ->). lia. }
+        destruct (Hpt x (proj1 Hr) (proj2 Hr)) as [[_ Hz]|[Hn _]]; [exact Hz|].
+        cbn [denote_from] in Hn. now destruct Hn.
+    - cbn [pread_pieces]. destruct (N.eqb_spec len 0) as [->|Hl]; [reflexivity|].
+      inversion Hfa as [|r' rs' Hr Hfa' E]; subst r' rs'. cbn [total] in Htot.
+      rewrite (wadd_small (endoff r) 1) by lia.
+      rewrite wsub_le by lia.
+      set (seglen := N.min (endoff r + 1 - off) len).
+      assert (Hs0 : 0 < seglen) by (unfold seglen; lia).
+      assert (Hsl : seglen <= len) by (unfold seglen; lia).
+      assert (Hse : seglen <= endoff r + 1 - off) by (unfold seglen; lia).
+      (* every position of this piece lies in range r *)
+      assert (Hin : forall k, k < seglen -> denote_from base (r :: rs) (base + off + k) = meth r).
+      { intros k Hk. cbn [denote_from]. destruct (N.leb_spec (base + off + k) (base + endoff r)); [reflexivity|lia]. }
+      (* the rest of the request *)
+      assert (Htail : exec_pieces rd (pread_pieces offs rs 0 (s64 (u64 (pos + Z.of_N seglen))) (len - seglen))
+                      = POk (slice f (base + off + seglen) (len - seglen))).
+      { destruct (N.eqb_spec (len - seglen) 0) as [->|Hne].
+        - rewrite pread_pieces_len0. reflexivity.
+        - assert (Hseg : seglen = endoff r + 1 - off) by (unfold seglen in *; lia).
+          replace (base + off + seglen) with (base + endoff r + 1 + 0) by lia.
+          apply IH; try assumption.
+          + intros x Hx1 Hx2. specialize (Hpt x ltac:(lia) ltac:(lia)).
+            cbn [denote_from] in Hpt. destruct (N.leb_spec x (base + endoff r)); [lia|exact Hpt].
+          + lia.
+          + destruct rs; [exact I|lia].
+          + rewrite s64_u64 by lia. lia.
+          + lia. }
+      replace len with (seglen + (len - seglen)) at 2 by lia. rewrite slice_app.
+      unfold Zeqb. destruct (Z.eqb_spec (meth r) NONE) as [Em|Em].
+      + (* a hole *)
+        cbn [exec_pieces]. rewrite Htail. f_equal. f_equal. unfold slice, zeros.
+        rewrite zeros_map; [now rewrite nseq_length|].
+        intros x Hx.
+        assert (Hr' : exists k, k < seglen /\ x = base + off + k).
+        { apply in_nseq in Hx as (k & Hk & ->). exists k. split; [lia|reflexivity]. }
+        destruct Hr' as (k & Hk & ->).
+        destruct (Hpt (base + off + k) ltac:(lia) ltac:(lia)) as [[_ Hz]|[Hn _]]; [exact Hz|].
+        rewrite Hin in Hn by exact Hk. now destruct Hn.
+      + (* a segment of the flattened stream *)
+        assert (Hd : exists d, offs_nth offs (meth r) = Some d /\
+                     forall k, k < seglen ->
+                       (0 <= Z.of_N (base + off + k) + d)%Z /\
+                       (Z.of_N (base + off + k) + d < Z.of_N flen)%Z /\
+                       phys (Z.of_N (base + off + k) + d) = f (base + off + k)).
+        { destruct (Hpt (base + off) ltac:(lia) ltac:(lia)) as [[Hn _]|(_ & d & Hd & _)].
+          - pose proof (Hin 0 Hs0) as Hin0. rewrite N.add_0_r in Hin0. rewrite Hin0 in Hn. now destruct Em.
+          - pose proof (Hin 0 Hs0) as Hin0. rewrite N.add_0_r in Hin0. rewrite Hin0 in Hd.
+            exists d. split; [exact Hd|]. intros k Hk.
+            destruct (Hpt (base + off + k) ltac:(lia) ltac:(lia)) as [[Hn _]|(_ & d' & Hd' & H0 & H1 & H2)].
+            + rewrite Hin in Hn by exact Hk. now destruct Em.
+            + rewrite Hin in Hd' by exact Hk. rewrite Hd in Hd'. injection Hd' as <-. now repeat split. }
+        destruct Hd as (d & Hd & Hk).
+        unfold xlat_pos. rewrite Hd.
+        destruct (Hk 0 Hs0) as (H00 & H01 & _). rewrite N.add_0_r in H00, H01.
+        destruct (Hk (seglen - 1) ltac:(lia)) as (_ & H11 & _).
+        assert (Hio : in_off (pos + d) = true).
+        { unfold in_off, OFF_MIN, OFF_MAX. subst pos. unfold flen in *.
+          apply andb_true_intro. split; apply Z.leb_le; lia. }
+        rewrite Hio. cbn [exec_pieces].
+        rewrite Hrd by (subst pos; lia).
+        rewrite Htail. f_equal. f_equal.
+        rewrite sl_map by (subst pos; lia).
+        unfold slice. apply map_nseq_ext. intros k Hk'. rewrite Nnat.N2Nat.id in Hk'.
+        destruct (Hk k Hk') as (Hk0 & Hk1 & Hk2). rewrite <- Hk2. unfold phys. f_equal. subst pos. lia.
+  Qed.
+
+  Lemma skip_ranges_spec : forall rs off rs' off',
+    Forall (fun r => endoff r < MAXA) rs -> off < W ->
+    skip_ranges rs off = (rs', off') ->
+    exists pre, rs = pre ++ rs' /\ off = total pre + off' /\
+      match rs' with [] => True | r :: _ => off' <= endoff r end.
+  Proof.
+    pose proof W_val as HW. pose proof MAXA_val as HM.
+    induction rs as [|r rs IH]; intros off rs' off' Hfa Hoff E; cbn [skip_ranges] in E.
+    - injection E as <- <-. exists []. cbn [app total]. split; [reflexivity|]. split; [lia|exact I].
+    - inversion Hfa as [|r0 rs0 Hr Hfa' E0]; subst r0 rs0.
+      destruct (N.ltb_spec (endoff r) off) as [Hlt|Hge].
+      + rewrite (wadd_small (endoff r) 1) in E by lia. rewrite wsub_le in E by lia.
+        assert (Hoff' : off - (endoff r + 1) < W) by lia.
+        destruct (IH _ _ _ Hfa' Hoff' E) as (pre & -> & Ho & Hh).
+        exists (r :: pre). cbn [app total]. split; [reflexivity|]. split; [lia|exact Hh].
+      + injection E as <- <-. exists []. cbn [app total]. split; [reflexivity|]. split; lia.
+  Qed.
+
+  Lemma in_total r m : In r m -> endoff r + 1 <= total m.
+  Proof.
+    induction m as [|q m IH]; intros H; [destruct H|].
+    cbn [total]. destruct H as [->|H]; [lia|]. apply IH in H. lia.
+  Qed.
+
+  Lemma tiles_two_values m x y :
+    total m = W -> x < W -> y < W -> denote m x <> denote m y ->
+    Forall (fun r => endoff r < MAXA) m.
+  Proof.
+    pose proof W_val as HW. pose proof MAXA_val as HM.
+    intros Ht Hx Hy Hne. apply Forall_forall. intros r Hin.
+    destruct (N.lt_ge_cases (endoff r) MAXA) as [H|H]; [exact H|exfalso].
+    destruct m as [|q m]; [destruct Hin|]. cbn [total] in Ht.
+    destruct Hin as [->|Hin].
+    - assert (m = []) by (apply total_0_nil; lia). subst m.
+      apply Hne. unfold denote. cbn [denote_from].
+      destruct (N.leb_spec x (0 + endoff r)), (N.leb_spec y (0 + endoff r)); try reflexivity; lia.
+    - apply in_total in Hin. lia.
+  Qed.
+
+  Lemma Inv_ranges done m offs : Inv done m offs -> Forall (fun r => endoff r < MAXA) m.
+  Proof.
+    pose proof W_val as HW.
+    intros (Ht & _ & _ & Hhi & [->|(x & Hx & Hnx)]); [constructor|].
+    destruct Ht as [->|Ht]; [constructor|].
+    apply (tiles_two_values m x (W - 1)); try lia; try assumption.
+    rewrite (Hhi (W - 1)); [exact Hnx|]. unfold OFF_LIMIT. lia.
+  Qed.
+
+  (** where position [pos] falls: the ranges from there on *)
+  Lemma skip_at done m offs pos rs off :
+    Inv done m offs -> pos < W -> skip_ranges m pos = (rs, off) ->
+    exists pre, m = pre ++ rs /\ pos = total pre + off /\
+      Forall (fun r => endoff r < MAXA) rs /\ total pre + total rs <= W /\
+      match rs with [] => True | r :: _ => off <= endoff r end /\
+      forall x, total pre <= x -> denote m x = denote_from (total pre) rs x.
+  Proof.
+    intros HI Hp E. pose proof (Inv_ranges _ _ _ HI) as Hfa.
+    destruct (skip_ranges_spec _ _ _ _ Hfa Hp E) as (pre & Hm & Hpos & Hh).
+    exists pre. split; [exact Hm|]. split; [exact Hpos|].
+    split; [rewrite Hm in Hfa; now apply Forall_app in Hfa|].
+    split.
+    - destruct HI as ([->|Ht] & _).
+      + destruct pre; [|discriminate]. cbn [app] in Hm. subst rs. cbn [total]. pose proof W_pos. lia.
+      + rewrite <- total_app, <- Hm. lia.
+    - split; [exact Hh|]. intros x Hx. unfold denote. rewrite Hm. now rewrite denote_app_r by lia.
+  Qed.
+
+  Theorem pread_flat_ok done m offs pos len :
+    Inv done m offs -> pos + len <= OFF_LIMIT ->
+    pread_flat rd {| fm_map := m; fm_offs := offs |} (Z.of_N pos) len
+    = POk (slice (rearrange done) pos len).
+  Proof.
+    intros HI Hl. pose proof W_val as HW. unfold OFF_LIMIT in *.
+    unfold pread_flat, pread_plan. cbn [fm_map fm_offs]. rewrite u64_of_N by lia.
+    destruct (skip_ranges m pos) as [rs off] eqn:E.
+    assert (HpW : pos < W) by lia.
+    destruct (skip_at _ _ _ _ _ _ HI HpW E) as (pre & Hm & Hpos & Hfa & Htot & Hh & Hden).
+    rewrite Hpos. apply pread_pieces_ok; try assumption.
+    - intros x Hx1 Hx2. rewrite <- Hden by lia. destruct HI as (_ & _ & Hp & _). apply Hp. lia.
+    - reflexivity.
+    - unfold OFF_LIMIT. lia.
+  Qed.
+
+  (** ** No undefined behaviour, whatever the file cache answers *)
+  Definition not_bad (p : piece) : Prop := match p with PBad _ => False | _ => True end.
+
+  Lemma pread_pieces_nobad offs f : forall rs base off pos len,
+    (forall x, base + off <= x -> x < base + off + len ->
+               pt_ok offs f (denote_from base rs x) x) ->
+    Forall (fun r => endoff r < MAXA) rs ->
+    base + total rs <= W ->
+    match rs with [] => True | r :: _ => off <= endoff r end ->
+    pos = Z.of_N (base + off) ->
+    base + off + len <= OFF_LIMIT ->
+    Forall not_bad (pread_pieces offs rs off pos len).
+  Proof.
+    pose proof W_val as HW. pose proof MAXA_val as HM. unfold OFF_LIMIT.
+    pose proof Hflen as Hfl. unfold flen, OFF_LIMIT in Hfl.
+    induction rs as [|r rs IH]; intros base off pos len Hpt Hfa Htot Hoff Hpos Hlim.
+    - cbn [pread_pieces]. destruct (len =? 0); repeat constructor.
+    - cbn [pread_pieces]. destruct (N.eqb_spec len 0) as [->|Hl]; [constructor|].
+      inversion Hfa as [|r' rs' Hr Hfa' E]; subst r' rs'. cbn [total] in Htot.
+      rewrite (wadd_small (endoff r) 1) by lia.
+      rewrite wsub_le by lia.
+      set (seglen := N.min (endoff r + 1 - off) len).
+      assert (Hs0 : 0 < seglen) by (unfold seglen; lia).
+      constructor.
+      + unfold Zeqb. destruct (Z.eqb_spec (meth r) NONE) as [Em|Em]; [exact I|].
+        destruct (Hpt (base + off) ltac:(lia) ltac:(lia)) as [[Hn _]|(_ & d & Hd & H0 & H1 & _)];
+          cbn [denote_from] in *;
+          destruct (N.leb_spec (base + off) (base + endoff r)); try lia.
+        unfold xlat_pos. rewrite Hd.
+        assert (Hio : in_off (pos + d) = true).
+        { unfold in_off, OFF_MIN, OFF_MAX. subst pos.
+          apply andb_true_intro. split; apply Z.leb_le; lia. }
+        rewrite Hio. exact I.
+      + destruct (N.eqb_spec (len - seglen) 0) as [->|Hne].
+        * rewrite pread_pieces_len0. constructor.
+        * assert (Hseg : seglen = endoff r + 1 - off) by (unfold seglen in *; lia).
+          apply (IH (base + endoff r + 1) 0); try assumption.
+          -- intros x Hx1 Hx2. specialize (Hpt x ltac:(lia) ltac:(lia)).
+             cbn [denote_from] in Hpt. destruct (N.leb_spec x (base + endoff r)); [lia|exact Hpt].
+          -- lia.
+          -- destruct rs; [exact I|lia].
+          -- rewrite s64_u64 by lia. lia.
+          -- lia.
+  Qed.
+
+  Lemma exec_nobad (rd' : Z -> N -> rd_res) ps why :
+    Forall not_bad ps -> exec_pieces rd' ps <> PUB why.
+  Proof.
+    induction ps as [|p ps IH]; intros H; cbn [exec_pieces]; [discriminate|].
+    inversion H as [|p0 ps0 Hp Hps E]; subst p0 ps0. specialize (IH Hps).
+    destruct p as [n|q n|w]; [| |destruct Hp].
+    - destruct (exec_pieces rd' ps); try discriminate. exact IH.
+    - destruct (rd' q n); [|discriminate]. destruct (exec_pieces rd' ps); try discriminate. exact IH.
+  Qed.
+
+  Lemma pread_plan_nobad done m offs pos len :
+    Inv done m offs -> pos + len <= OFF_LIMIT ->
+    Forall not_bad (pread_plan {| fm_map := m; fm_offs := offs |} (Z.of_N pos) len).
+  Proof.
+    intros HI Hl. pose proof W_val as HW. unfold OFF_LIMIT in *.
+    unfold pread_plan. cbn [fm_map fm_offs]. rewrite u64_of_N by lia.
+    destruct (skip_ranges m pos) as [rs off] eqn:E.
+    assert (HpW : pos < W) by lia.
+    destruct (skip_at _ _ _ _ _ _ HI HpW E) as (pre & Hm & Hpos & Hfa & Htot & Hh & Hden).
+    apply pread_pieces_nobad with (f := rearrange done) (base := total pre); try assumption.
+    - intros x Hx1 Hx2. rewrite <- Hden by lia. destruct HI as (_ & _ & Hp & _). apply Hp. lia.
+    - now rewrite Hpos.
+    - unfold OFF_LIMIT. lia.
+  Qed.
+
+  (** ** flatmap_get_chunk_flat (repaired) *)
+  Variable gc : Z -> N -> rd_res.
+  (** [fcache_get_chunk] delivers the same bytes as [fcache_pread] *)
+  Hypothesis Hgc : forall p n, gc p n = rd p n.
+
+  (** the translation of a position that lies in a segment *)
+  Lemma xlat_in_segment done m offs pos :
+    Inv done m offs -> pos < OFF_LIMIT -> denote m pos <> NONE ->
+    exists d, xlat_pos offs (denote m pos) (Z.of_N pos) = inl (Z.of_N pos + d)%Z /\
+      (0 <= Z.of_N pos + d)%Z /\ (Z.of_N pos + d < Z.of_N flen)%Z.
+  Proof.
+    intros (_ & _ & Hp & _) Hl Hn. pose proof W_val as HW. unfold OFF_LIMIT in *.
+    pose proof Hflen as Hfl. unfold flen, OFF_LIMIT in Hfl.
+    destruct (Hp pos ltac:(lia)) as [[Hi _]|(_ & d & Hd & H0 & H1 & _)]; [now destruct Hn|].
+    exists d. unfold xlat_pos. rewrite Hd.
+    assert (Hio : in_off (Z.of_N pos + d) = true).
+    { unfold in_off, OFF_MIN, OFF_MAX. unfold flen in H1. apply andb_true_intro. split; apply Z.leb_le; lia. }
+    rewrite Hio. now repeat split.
+  Qed.
+
+  Theorem get_chunk_flat_ok done m offs pos len :
+    Inv done m offs -> pos + len <= OFF_LIMIT ->
+    exists n, get_chunk_flat rd gc {| fm_map := m; fm_offs := offs |} (Z.of_N pos) len true
+              = (POk (slice (rearrange done) pos len), n) /\ n <= 1.
+  Proof.
+    intros HI Hl. pose proof W_val as HW.
+    pose proof (pread_flat_ok done m offs pos len HI Hl) as Hp.
+    unfold OFF_LIMIT in Hl.
+    unfold get_chunk_flat, chunk_plan_of. unfold pread_flat, pread_plan in Hp.
+    cbn [fm_map fm_offs] in *. rewrite u64_of_N in * by lia.
+    destruct (skip_ranges m pos) as [rs off] eqn:E.
+    assert (Hcopy : exists n,
+      exec_chunk rd gc (CCopy (pread_plan {| fm_map := m; fm_offs := offs |} (Z.of_N pos) len)) true true
+      = (POk (slice (rearrange done) pos len), n) /\ n <= 1).
+    { cbn [exec_chunk negb]. unfold pread_plan. cbn [fm_map fm_offs]. rewrite u64_of_N by lia.
+      rewrite E, Hp. exists 1. split; [reflexivity|lia]. }
+    destruct rs as [|r rs]; [exact Hcopy|].
+    destruct (negb (Zeqb (meth r) NONE) && (len <=? wsub (wadd (endoff r) 1) off)) eqn:Ec;
+      [|exact Hcopy].
+    apply andb_prop in Ec as [Em Hle]. apply N.leb_le in Hle.
+    unfold Zeqb in *. destruct (Z.eqb_spec (meth r) NONE) as [|Em']; [discriminate|]. clear Em.
+    assert (HpW : pos < W) by lia.
+    destruct (skip_at _ _ _ _ _ _ HI HpW E) as (pre & Hm & Hpos & Hfa & Htot & Hh & Hden).
+    assert (Hmeth : denote m pos = meth r).
+    { rewrite Hden by lia. cbn [denote_from].
+      destruct (N.leb_spec pos (total pre + endoff r)); [reflexivity|lia]. }
+    destruct (N.eqb_spec len 0) as [->|Hl0].
+    - (* an empty chunk *)
+      assert (Hlt : pos < OFF_LIMIT \/ pos = OFF_LIMIT) by (unfold OFF_LIMIT; lia).
+      destruct Hlt as [Hlt | ->].
+      + destruct (xlat_in_segment done m offs pos HI Hlt) as (d & Hx & H0 & H1);
+          [now rewrite Hmeth|]. rewrite Hmeth in Hx. rewrite Hx.
+        cbn [exec_chunk]. rewrite Hgc, Hrd by lia.
+        exists 0. split; [reflexivity|lia].
+      + destruct HI as (_ & _ & _ & Hhi & _). rewrite (Hhi OFF_LIMIT) in Hmeth by lia. now destruct Em'.
+    - (* the whole chunk lies in segment r: the read plan is this one access *)
+      cbn [pread_pieces] in Hp.
+      destruct (N.eqb_spec len 0) as [|_]; [contradiction|].
+      replace (N.min (wsub (wadd (endoff r) 1) off) len) with len in Hp by lia.
+      unfold Zeqb in Hp. destruct (Z.eqb_spec (meth r) NONE) as [|_]; [contradiction|].
+      rewrite N.sub_diag, pread_pieces_len0 in Hp.
+      destruct (xlat_pos offs (meth r) (Z.of_N pos)) as [q|why]; cbn [exec_pieces] in Hp; [|discriminate].
+      cbn [exec_chunk]. rewrite Hgc.
+      destruct (rd q len) as [b|st]; [|discriminate].
+      rewrite app_nil_r in Hp. injection Hp as ->.
+      exists 0. split; [reflexivity|lia].
+  Qed.
+
+  (** never an out-of-bounds access or an overflow, whatever the file cache
+      and the allocator answer *)
+  Theorem get_chunk_flat_no_ub (rd' gc' : Z -> N -> rd_res) done m offs pos len ok why :
+    Inv done m offs -> pos + len <= OFF_LIMIT ->
+    fst (get_chunk_flat rd' gc' {| fm_map := m; fm_offs := offs |} (Z.of_N pos) len ok) <> PUB why.
+  Proof.
+    intros HI Hl. pose proof W_val as HW.
+    pose proof (pread_plan_nobad done m offs pos len HI Hl) as Hnb.
+    unfold OFF_LIMIT in Hl.
+    unfold get_chunk_flat, chunk_plan_of. cbn [fm_map fm_offs]. rewrite u64_of_N by lia.
+    destruct (skip_ranges m pos) as [rs off] eqn:E.
+    assert (Hcopy : fst (exec_chunk rd' gc'
+               (CCopy (pread_plan {| fm_map := m; fm_offs := offs |} (Z.of_N pos) len)) ok true) <> PUB why).
+    { cbn [exec_chunk]. destruct (negb ok); [discriminate|].
+      pose proof (exec_nobad rd' _ why Hnb) as Hx.
+      destruct (exec_pieces rd' _); cbn [fst]; try discriminate. exact Hx. }
+    destruct rs as [|r rs]; [exact Hcopy|].
+    destruct (negb (Zeqb (meth r) NONE) && (len <=? wsub (wadd (endoff r) 1) off)) eqn:Ec;
+      [|exact Hcopy].
+    apply andb_prop in Ec as [Em Hle].
+    unfold Zeqb in *. destruct (Z.eqb_spec (meth r) NONE) as [|Em']; [discriminate|]. clear Em.
+    assert (HpW : pos < W) by lia.
+    destruct (skip_at _ _ _ _ _ _ HI HpW E) as (pre & Hm & Hpos & Hfa & Htot & Hh & Hden).
+    assert (Hmeth : denote m pos = meth r).
+    { rewrite Hden by lia. cbn [denote_from].
+      destruct (N.leb_spec pos (total pre + endoff r)); [reflexivity|lia]. }
+    assert (Hlt : pos < OFF_LIMIT \/ pos = OFF_LIMIT) by (unfold OFF_LIMIT; lia).
+    destruct Hlt as [Hlt | ->].
+    - destruct (xlat_in_segment done m offs pos HI Hlt) as (d & Hx & H0 & H1);
+        [now rewrite Hmeth|]. rewrite Hmeth in Hx. rewrite Hx.
+      cbn [exec_chunk]. destruct (gc' _ _); discriminate.
+    - destruct HI as (_ & _ & _ & Hhi & _). rewrite (Hhi OFF_LIMIT) in Hmeth by lia. now destruct Em'.
+  Qed.
+
+  Theorem pread_flat_no_ub (rd' : Z -> N -> rd_res) done m offs pos len why :
+    Inv done m offs -> pos + len <= OFF_LIMIT ->
+    pread_flat rd' {| fm_map := m; fm_offs := offs |} (Z.of_N pos) len <> PUB why.
+  Proof.
+    intros HI Hl. unfold pread_flat. apply exec_nobad. now apply pread_plan_nobad with done.
+  Qed.
 End Stream.
+
+(** a failed [get_chunk] owns no buffer, a successful one at most one *)
+Lemma exec_chunk_balance rd gc cp ok :
+  match exec_chunk rd gc cp ok true with
+  | (POk _, n) => n <= 1
+  | (_, n) => n = 0
+  end.
+Proof.
+  destruct cp as [p n|ps|w]; cbn [exec_chunk].
+  - destruct (gc p n); lia.
+  - destruct ok; cbn [negb]; [|reflexivity]. destruct (exec_pieces rd ps); lia.
+  - reflexivity.
+Qed.
